@@ -5,6 +5,7 @@ package c09
 
 import (
 	"fmt"
+	"runtime"
 	"strings"
 	"sync"
 	"sync/atomic"
@@ -143,10 +144,24 @@ func (tr *Tr) model(topic string) string {
 }
 
 func (tr *Tr) quiesce() {
+	// Exact quiescence from the hook counters.  The two counters cannot be read atomically, so the
+	// order matters: read done FIRST, then enq.  done(T1) == enq(T2), T1 < T2, implies that nothing was
+	// in flight at T2 (done only grows and never overtakes the enqueues it answers, except for the nested
+	// enq of a publish handler whose target handler already finished - in which case every recorder has
+	// already been handed its event).  Reading enq first is wrong: enq=2 can be read before a publish
+	// handler's nested enqueue and done=2 after it finished, with the nested event still unhandled
+	// (observed once in ~70 000 traces).
 	deadline := time.Now().Add(10 * time.Second)
 	for i := 0; ; i++ {
-		if tr.ctx.enq.Load() == tr.ctx.done.Load() {
-			return
+		d := tr.ctx.done.Load()
+		e := tr.ctx.enq.Load()
+		if d == e {
+			runtime.Gosched()
+			d2 := tr.ctx.done.Load()
+			e2 := tr.ctx.enq.Load()
+			if d2 == e2 && d2 == d {
+				return
+			}
 		}
 		if i > 100 {
 			time.Sleep(50 * time.Microsecond)
